@@ -65,13 +65,13 @@ func alphabet() []tokenClass {
 			"--- " + mac[:42] + "\n",
 			"--- " + mac + "A\n",
 			"--- " + mac + " \n",
-			"---\n",
-			"--- \n",
-			"--- " + mac,
-			"---  " + mac + "\n",
-			"--- " + mac + "=\n",
 			"--- " + lastCharNonCanonical(mac) + "\n",
 			"--- " + mac + "\r\n",
+			"--- " + mac,
+			"---\n",
+			"--- \n",
+			"---  " + mac + "\n",
+			"--- " + mac + "=\n",
 			" --- " + mac + "\n",
 			"---- " + mac + "\n",
 			"--- " + canon(64, "mac64") + "\n",
@@ -134,6 +134,7 @@ func runTokens(o *oracle, maxLen, rounds, minLen int) {
 		j := jobs[ji]
 		r.Guard(fmt.Sprintf("tokens round=%d len=%d block=%d", j.round, j.length, j.lo), func() {
 			st := newStats("tokens")
+			st.sampling = j.round == 0 && j.length == 3 && j.lo == 0
 			toks := insts[j.round]
 			buf := make([]byte, 0, 1024)
 			for idx := j.lo; idx < j.hi; idx++ {
@@ -148,7 +149,14 @@ func runTokens(o *oracle, maxLen, rounds, minLen int) {
 				if j.length <= 4 {
 					level = lvBasicAll
 				}
-				acc, _ := o.check(st, buf, level, 1)
+				acc, m := o.check(st, buf, level, 1)
+				if st.sampling && (!acc || idx&15 != 14) {
+					cls := "tokens: rejected (nil header, nil reader; reference rejects too)"
+					if acc {
+						cls = "tokens: accepted, Marshal||payload == input through 4 readers, then again with a payload tail"
+					}
+					st.sample(cls, map[string]any{"input": fmt.Sprintf("%+q", buf), "header_bytes": len(m)})
+				}
 				if acc {
 					// "exactly the unread remainder": the same input followed by a payload tail
 					st.tab("tokens_accepted_by_length", fmt.Sprint(j.length))
